@@ -334,8 +334,16 @@ func (p *Pkg) resolveTypeErr(e ast.Expr) (*T, error) {
 			if err != nil {
 				return nil, fmt.Errorf("struct field: %v", err)
 			}
-			if ft.K == KPtr || ft.K == KBigInt || ft.K == KRegexp {
+			// stage H: struct{ *SymbolTable } (SymbolDebugger): the embedded pointer is a READ-ONLY view of
+			// the table (taken to be non-nil, as a *SymbolTable parameter is).  A call that writes through
+			// it is refused by emitCall (the argument is not a pointer parameter of the caller), and no
+			// statement of the subset assigns a field.  Every other pointer field stays refused.
+			roTable := len(f.Names) == 0 && ft.K == KPtr && ft.Elem.Name == "SymbolTable" && typeStr(f.Type) == "*SymbolTable"
+			if (ft.K == KPtr || ft.K == KBigInt || ft.K == KRegexp) && !roTable {
 				return nil, fmt.Errorf("struct with a pointer field (aliasing is not represented)")
+			}
+			if roTable {
+				return &T{K: KWrap, Elem: ft, Field: "SymbolTable", Embedded: true}, nil
 			}
 			if len(f.Names) == 1 {
 				return &T{K: KWrap, Elem: ft, Field: f.Names[0].Name}, nil
